@@ -470,6 +470,15 @@ func c15templates(L, ratio int) []c15hist {
 	out = append(out, c15hist{Name: "burst-over-per-topic-limit", L: L, Ratio: ratio, Steps: []c15step{
 		{Op: "recv", Sender: 7, Topic: "big", N: perTopicLimit + 30}, {Op: "recv", Sender: 8, Topic: "big", N: 3}, {Op: "send", Topic: "big"},
 		{Op: "recv", Sender: 7, Topic: "next", N: 2}, {Op: "send", Topic: "next"}}})
+	// (b') very long bursts of one sender on one unstarted topic (the count of what is kept must not depend on how long the burst is)
+	for _, burst := range []int{255, 256, 257, 300, 1000, 5000} {
+		if L != 3 && burst != 300 {
+			continue // once per burst length is enough (the per-topic limit does not depend on L)
+		}
+		out = append(out, c15hist{Name: fmt.Sprintf("burst-of-%d-on-one-topic", burst), L: L, Ratio: ratio, Steps: []c15step{
+			{Op: "recv", Sender: 7, Topic: "huge", N: burst}, {Op: "recv", Sender: 8, Topic: "huge", N: 3}, {Op: "send", Topic: "huge"},
+			{Op: "recv", Sender: 7, Topic: "after-huge", N: 2}, {Op: "send", Topic: "after-huge"}}})
+	}
 	// (c) too many topics at once, then start them all, then the sender must be served again
 	{
 		h := c15hist{Name: "too-many-topics", L: L, Ratio: ratio}
